@@ -221,10 +221,7 @@ REVERTS = [
      """            if len(df):
 """, """            if not df.empty:
 """),
-    ('revert-F55-narrowing-integer-cast', ['C07', 'C18', 'C19'], 'fastparquet/writer.py',
-     """                if (out != data.values).any():
-""", """                if False:
-"""),
+    # (F55, the storage-width check of 49815bb, was superseded by the range check of 28da23c: see F59)
     ('revert-F56-empty-codec-spec', ['C02'], 'fastparquet/writer.py',
      """    if isinstance(compression, dict) and not compression:
 """, """    if False:
